@@ -1368,18 +1368,20 @@ func (e *Entry) Find(name string) *Entry {
 			case "input":
 				if e.RPC.Input == nil {
 					e.RPC.Input = &Entry{
-						Name: "input",
-						Kind: InputEntry,
-						Dir:  make(map[string]*Entry),
+						Parent: e,
+						Name:   "input",
+						Kind:   InputEntry,
+						Dir:    make(map[string]*Entry),
 					}
 				}
 				e = e.RPC.Input
 			case "output":
 				if e.RPC.Output == nil {
 					e.RPC.Output = &Entry{
-						Name: "output",
-						Kind: OutputEntry,
-						Dir:  make(map[string]*Entry),
+						Parent: e,
+						Name:   "output",
+						Kind:   OutputEntry,
+						Dir:    make(map[string]*Entry),
 					}
 				}
 				e = e.RPC.Output
